@@ -160,7 +160,8 @@ func (s Spec) table() goldmark.Extender {
 }
 
 var (
-	richURLRegexp   = regexp.MustCompile(`^(?:https|gopher)://[a-z0-9.\-]+(?:/[^\s<]*)?`)
+	// (schemes with and without "//"; the remainder after a scheme without "//" may be empty)
+	richURLRegexp   = regexp.MustCompile(`^(?:(?:https|gopher)://[a-z0-9.\-]+(?:/[^\s<]*)?|(?:mailto|tel):[^\s<]*)`)
 	richWWWRegexp   = regexp.MustCompile(`^www\.[a-z0-9.\-]+(?:/[^\s<]*)?`)
 	richEmailRegexp = regexp.MustCompile(`^[a-z0-9.+_\-]+@[a-z0-9.\-]+\.[a-z]+`)
 )
@@ -214,7 +215,7 @@ func (s Spec) cjk(style extension.EastAsianLineBreaks, esc bool) goldmark.Extend
 
 func (s Spec) linkify() goldmark.Extender {
 	if s.Rich && s.Rich2 {
-		return extension.NewLinkify(extension.WithLinkifyAllowedProtocols([][]byte{[]byte("https:"), []byte("gopher:")}),
+		return extension.NewLinkify(extension.WithLinkifyAllowedProtocols([][]byte{[]byte("https:"), []byte("gopher:"), []byte("mailto:"), []byte("tel:")}),
 			extension.WithLinkifyURLRegexp(richURLRegexp), extension.WithLinkifyWWWRegexp(richWWWRegexp), extension.WithLinkifyEmailRegexp(richEmailRegexp))
 	}
 	if s.Rich {
